@@ -269,3 +269,54 @@ func PlantTwins(t *rapid.T, cfg *Config) bool {
 	cfg.Regs = append(cfg.Regs, add...)
 	return true
 }
+
+// PlantTwinsLifetimes: the twins of PlantTwins that differ in the tag alone, over providers of
+// different lifetimes - one parameter object asks for a scoped service, its twin (same printed name,
+// same layout) for a singleton; the first belongs to a scoped consumer, the second to a long-lived
+// one. A valid set: nothing long-lived declares a dependency on anything scoped.
+func PlantTwinsLifetimes(t *rapid.T, cfg *Config) bool {
+	m, err := NewModel(cfg)
+	if err != nil {
+		return false
+	}
+	nid := 0
+	for _, r := range cfg.Regs {
+		if r.ID >= nid {
+			nid = r.ID + 1
+		}
+	}
+	shapes := []Ident{{T: 0}, {T: NumD, Key: "a"}, {T: 0, Key: "a"}, {T: NumD}}
+	pair := rapid.SampledFrom([][2]int{{0, 2}, {2, 0}, {1, 3}, {3, 1}}).Draw(t, "twinLifePair")
+	idScoped, idLong := shapes[pair[0]], shapes[pair[1]]
+	for _, id := range []Ident{idScoped, idLong} {
+		if _, taken := m.Owner(id); taken {
+			return false
+		}
+		// (an unkeyed Remove of the type elsewhere in the configuration would hit these)
+		for _, r := range cfg.Regs {
+			for _, p := range r.AllProvides() {
+				if p.Ident.T == id.T && p.Ident.Group == "" {
+					return false
+				}
+			}
+		}
+	}
+	outT := rapid.SampledFrom([]int{1, NumD + 1}).Draw(t, "twinLifeOut")
+	for _, name := range []string{"twin1Scoped", "twin2Long"} {
+		if _, taken := m.Owner(Ident{T: outT, Key: name}); taken {
+			return false
+		}
+	}
+	cfg.Regs = append(cfg.Regs,
+		Reg{ID: nid, Life: Scoped, Form: FormPlain, Outs: []OutSpec{{T: idScoped.T, Impl: idScoped.T}}, Name: idScoped.Key, HasErr: true},
+		Reg{ID: nid + 1, Life: Singleton, Form: FormPlain, Outs: []OutSpec{{T: idLong.T, Impl: idLong.T}}, Name: idLong.Key, HasErr: true},
+		Reg{ID: nid + 2, Life: Scoped, Form: FormPlain, Kind: KindTwin, HasErr: true, Outs: []OutSpec{{T: outT, Impl: outT}}, Name: "twin1Scoped",
+			Deps: []DepSpec{{T: idScoped.T, Key: idScoped.Key}}},
+		Reg{ID: nid + 3, Life: Transient, Form: FormPlain, Kind: KindTwin, HasErr: true,
+			Outs: []OutSpec{{T: outT, Impl: outT}}, Name: "twin2Long", Deps: []DepSpec{{T: idLong.T, Key: idLong.Key}}})
+	if _, err := NewModel(cfg); err != nil {
+		cfg.Regs = cfg.Regs[:len(cfg.Regs)-4]
+		return false
+	}
+	return true
+}
